@@ -212,7 +212,9 @@ def invert_pl_function(x: np.ndarray, y: np.ndarray, t: np.ndarray) -> List[np.n
     # Find all solutions given the crossing indices
     for t_ind, j in zip(t_indices, s_indices):
         # Apply linear interpolation between x[j] and x[j+1]
-        la = (t[t_ind] - y[j]) / (y[j + 1] - y[j])
+        # The difference is taken in floating point: for function values of a small
+        # integer dtype (e.g., int8) it can overflow.
+        la = (t[t_ind] - y[j]) / (np.float64(y[j + 1]) - np.float64(y[j]))
         z = (1 - la) * x[j] + la * x[j + 1]
         s[t_ind].append(z)
 
